@@ -3,6 +3,7 @@ package main
 // C06 (continued) — order independence of validator updates, sequential application, proposer/validator agreement.
 
 import (
+	"fmt"
 	"strings"
 
 	"golang.org/x/tools/go/ssa"
@@ -236,5 +237,131 @@ func c06Sequential(c *Ctx) {
 		for _, f := range []string{"lastState.LastBlockID", "lastState.AppHash", "call:(*types.ValidatorSet).Hash(lastState.Validators)", "call:(*types.ValidatorSet).Hash(lastState.NextValidators)", "call:kai/state/cstate.MedianTime(commit, lastState.LastValidators)"} {
 			c.Check("S", fnName(fn)+"/the proposed header carries "+f+" (what validateBlock compares with)", strings.Contains(hdr, f), fn.Pos(), 1, clip(hdr, 400))
 		}
+	}
+}
+
+// c06Config: results must not depend on which optional layers are switched on or how warm the caches are.
+func c06Config(c *Ctx) {
+	// ---- the snapshot layer mirrors exactly what goes into the trie --------------------------------------------------
+	if fn := c.Fn("kai/state", "stateObject", "updateTrie"); fn != nil {
+		var trieWrites, snapWrites []ssa.Instruction
+		allInstrs(fn, false, func(_ *ssa.Function, in ssa.Instruction) {
+			if cc := callCommon(in); cc != nil && re(`^iface:\(kai/state\.Trie\)\.(UpdateStorage|DeleteStorage)$`).MatchString(calleeNameNoPath(cc)) {
+				trieWrites = append(trieWrites, in)
+			}
+			if mu, ok := in.(*ssa.MapUpdate); ok && strings.HasPrefix(pathOf(mu.Key), "call:lib/crypto.HashData(") {
+				snapWrites = append(snapWrites, in)
+			}
+		})
+		c.Check("S", fnName(fn)+"/one slot write into the snapshot cache, two into the trie (update, delete)", len(snapWrites) == 1 && len(trieWrites) == 2, fn.Pos(), len(snapWrites)+len(trieWrites), "")
+		if len(snapWrites) == 1 && len(trieWrites) == 2 {
+			common := map[string]bool{}
+			for _, d := range domConds(trieWrites[0]) {
+				for _, e := range domConds(trieWrites[1]) {
+					if d == e {
+						common[d] = true
+					}
+				}
+			}
+			var extra []string
+			for _, d := range domConds(snapWrites[0]) {
+				if common[d] || d == "(s.db.snap != nil)=T" {
+					continue
+				}
+				extra = append(extra, d)
+			}
+			c.Check("S", fnName(fn)+"/with snapshots on, every slot written to or deleted from the trie is recorded in the snapshot cache (a deletion as nil)", len(extra) == 0 && hasCond(domConds(snapWrites[0]), `^\(s\.db\.snap != nil\)=T$`), instrPos(snapWrites[0]), 1,
+				"the snapshot write additionally depends on "+strings.Join(extra, " ; ")+": nodes with and without the snapshot layer would read different values for the same slot")
+			// the key is the hash of the slot key and the value is the encoding of the same trimmed value
+			mu := snapWrites[0].(*ssa.MapUpdate)
+			vals := map[string]bool{}
+			for _, pc := range phiCases(mu.Value) {
+				vals[clip(pathOf(pc.Val), 80)] = true
+			}
+			ok := len(vals) == 2 && vals["nil"]
+			for v := range vals {
+				if v != "nil" && !strings.HasPrefix(v, "call:lib/rlp.EncodeToBytes(call:lib/common.TrimLeftZeroes(") {
+					ok = false
+				}
+			}
+			c.Check("S", fnName(fn)+"/the cached value is nil for a deletion and the RLP of the trimmed value otherwise", ok, instrPos(snapWrites[0]), len(vals), setStr(vals))
+		}
+	}
+	if fn := c.Fn("kai/state", "StateDB", "updateStateObject"); fn != nil {
+		for _, in := range findInstrs(fn, func(in ssa.Instruction) bool {
+			mu, ok := in.(*ssa.MapUpdate)
+			return ok && pathOf(mu.Map) == "s.snapAccounts"
+		}) {
+			var extra []string
+			for _, d := range domConds(in) {
+				if d != "(s.snap != nil)=T" && !strings.Contains(d, "UpdateAccount(") {
+					extra = append(extra, d)
+				}
+			}
+			c.Check("S", fnName(fn)+"/with snapshots on, every account written to the trie is recorded in the snapshot cache", len(extra) == 0, instrPos(in), 1, strings.Join(extra, " ; "))
+		}
+	}
+	if fn := c.Fn("kai/state", "StateDB", "Finalise"); fn != nil {
+		n := 0
+		for _, in := range findInstrs(fn, CallTo(`^delete$`, `^delete\(s\.snap(Accounts|Storage), `)) {
+			dc := domConds(in)
+			ok := hasCond(dc, `^\(s\.snap != nil\)=T$`)
+			for _, d := range dc {
+				if d == "(s.snap != nil)=T" || strings.Contains(d, ".suicided") || strings.Contains(d, ".empty(") || strings.Contains(d, "deleteEmptyObjects") || strings.HasPrefix(d, "next(range(") || strings.Contains(d, "s.stateObjects[") {
+					continue
+				}
+				ok = false
+			}
+			if ok {
+				n++
+			}
+		}
+		c.Check("S", fnName(fn)+"/a destructed account's cached snapshot entries are dropped exactly when the object is marked deleted", n == 2, fn.Pos(), n, "")
+	}
+	// ---- caches on the execution path are keyed by the content they hold ------------------------------------------------
+	nCache := 0
+	for _, f := range c.P.ModFuncs {
+		if f.Pkg == nil || strings.TrimPrefix(f.Pkg.Pkg.Path(), modPath+"/") != "kai/state" || len(f.Blocks) == 0 {
+			continue
+		}
+		f := f
+		allInstrs(f, false, func(_ *ssa.Function, in ssa.Instruction) {
+			cc := callCommon(in)
+			if cc == nil || len(cc.Args) < 2 {
+				return
+			}
+			n := calleeNameNoPath(cc)
+			if !re(`^\(\*lib/common/lru\.(Cache|SizeConstrainedCache)\[.*\]\)\.(Add|Get|Contains|Peek|Remove)\[`).MatchString(n) {
+				return
+			}
+			recv := pathOf(cc.Args[0])
+			if recv != "db.codeSizeCache" && recv != "db.codeCache" {
+				return
+			}
+			nCache++
+			c.Check("E", fmt.Sprintf("%s/%s is addressed by the code hash (content), never by the account", fnName(f), recv), pathOf(cc.Args[1]) == "codeHash", instrPos(in), 1,
+				"key "+pathOf(cc.Args[1])+": an account's code can change (self-destruct and re-creation, fork upgrades), so a long-running node would serve a stale entry that a freshly started node does not have")
+		})
+	}
+	c.Check("E", "kai/state.cachingDB/code cache accesses inventoried", nCache >= 6, c.fnPos("(*kai/state.cachingDB).ContractCodeSize"), nCache, "")
+	if fn := c.Fn("kvm", "Contract", "isCode"); fn != nil {
+		n := 0
+		allInstrs(fn, false, func(_ *ssa.Function, in ssa.Instruction) {
+			switch x := in.(type) {
+			case *ssa.Lookup:
+				if pathOf(x.X) == "c.jumpdests" && pathOf(x.Index) == "c.CodeHash" {
+					n++
+				}
+			case *ssa.MapUpdate:
+				if pathOf(x.Map) == "c.jumpdests" && pathOf(x.Key) == "c.CodeHash" && pathOf(x.Value) == "call:kvm.codeBitmap(c.Code)" {
+					n++
+				}
+			}
+		})
+		c.Check("E", fnName(fn)+"/the shared jump-destination analysis is keyed by the code hash and computed from that code", n == 2, fn.Pos(), n, "")
+		c.Guarded(fn, "use the shared analysis", func(in ssa.Instruction) bool {
+			l, ok := in.(*ssa.Lookup)
+			return ok && pathOf(l.X) == "c.jumpdests"
+		}, G("the contract has a code hash", Cmp(`^c\.CodeHash$`, "!=", `.`), False(`^\(c\.CodeHash == `)))
 	}
 }
